@@ -1,4 +1,5 @@
 import ScrapliModel.Options
+import ScrapliModel.SshCfg
 /-!
 # OptionsSpec: the declarative reading of the constructors (definitions only, no proofs)
 
@@ -204,5 +205,34 @@ open Scrapli.Gen.PlatformOptions in
 def changedPlatformRows : List String :=
   (expectedPlatformRows.filter fun p =>
     !(entries.any fun e => e.nameS == p.1 && e.opt == some p.2.1 && e.documented == p.2.2.1 && e.conv == p.2.2.2)).map (·.1)
+
+
+/-! ## effect of the configuration where it acts: the argv of the system transport -/
+
+def valStr (v : Val) : Bytes := match v with | [s] => s | _ => []
+
+def valNat (v : Val) : Nat := (parseDec (valStr v)).getD 0
+
+/-- decimal text (optional leading '-') → Int -/
+def valInt (v : Val) : Int :=
+  match valStr v with
+  | 45 :: d => -((parseDec d).getD 0 : Nat)
+  | d => ((parseDec d).getD 0 : Nat)
+
+/-- What `(*System).Open` spawns for a constructed driver: the configuration's settings mapped
+onto the C14 model of `buildOpenArgs` / `open` / `openNetconf` (`SshCfg.systemArgv`). -/
+def argvOfConfig (host : Bytes) (c : Config) : List Bytes :=
+  SshCfg.systemArgv
+    { host := host, port := valInt (c .transport_Args_Port), user := valStr (c .transport_Args_User),
+      password := valStr (c .transport_Args_Password), timeoutNs := valInt (c .transport_Args_TimeoutSocket) }
+    { ssh := { strictKey := c .transport_SSHArgs_StrictKey == [tokTrue]
+               privateKeyPath := valStr (c .transport_SSHArgs_PrivateKeyPath)
+               privateKeyPassPhrase := valStr (c .transport_SSHArgs_PrivateKeyPassPhrase)
+               configFile := valStr (c .transport_SSHArgs_ConfigFile)
+               knownHostsFile := valStr (c .transport_SSHArgs_KnownHostsFile)
+               netconf := c .transport_SSHArgs_NetconfConnection == [tokTrue] }
+      extra := c .transport_System_ExtraArgs
+      bin := valStr (c .transport_System_OpenBin)
+      override := c .transport_System_OpenArgs }
 
 end Scrapli.Options
